@@ -8,6 +8,7 @@ use crate::bisync::{
 };
 use crate::error::{Result, SyncError};
 use crate::sync::scanner::Scanner;
+use std::collections::HashSet;
 use std::path::{Path, PathBuf};
 use std::time::SystemTime;
 
@@ -130,11 +131,19 @@ impl BisyncEngine {
             (stats, Vec::new())
         } else {
             // Actually perform sync
-            let (stats, errors) = execute_actions(source, dest, &resolved)?;
+            let (stats, errors, failed) = execute_actions(source, dest, &resolved)?;
 
-            // 9. Update state database
+            // 9. Update state database: every path seen on either side or in the prior state
             if let Some(ref mut db) = state_db {
-                update_state(db, &resolved)?;
+                let mut paths: HashSet<PathBuf> = prior_state.keys().cloned().collect();
+                paths.extend(
+                    source_files
+                        .iter()
+                        .chain(dest_files.iter())
+                        .filter(|e| !e.is_dir)
+                        .map(|e| e.relative_path.clone()),
+                );
+                update_state(db, source, dest, &paths, &failed)?;
             }
 
             (stats, errors)
@@ -266,9 +275,10 @@ fn execute_actions(
     source_root: &Path,
     dest_root: &Path,
     resolved: &ResolvedChanges,
-) -> Result<(BisyncStats, Vec<String>)> {
+) -> Result<(BisyncStats, Vec<String>, HashSet<PathBuf>)> {
     let mut stats = BisyncStats::default();
     let mut errors = Vec::new();
+    let mut failed = HashSet::new();
 
     for action in &resolved.actions {
         let result = execute_single_action(source_root, dest_root, action);
@@ -289,6 +299,7 @@ fn execute_actions(
             }
             Err(e) => {
                 errors.push(format!("Failed to sync {:?}: {}", action, e));
+                failed.insert(action_path(action).to_path_buf());
             }
         }
     }
@@ -296,7 +307,16 @@ fn execute_actions(
     stats.conflicts_resolved = resolved.conflicts_resolved;
     stats.conflicts_renamed = resolved.conflicts_renamed;
 
-    Ok((stats, errors))
+    Ok((stats, errors, failed))
+}
+
+/// Relative path an action works on
+fn action_path(action: &SyncAction) -> &Path {
+    match action {
+        SyncAction::CopyToSource(entry) | SyncAction::CopyToDest(entry) => &entry.relative_path,
+        SyncAction::DeleteFromSource(path) | SyncAction::DeleteFromDest(path) => path,
+        SyncAction::RenameConflict { source, .. } => &source.relative_path,
+    }
 }
 
 /// Execute a single sync action
@@ -362,69 +382,63 @@ fn delete_file(path: &Path) -> Result<()> {
 }
 
 /// Update state database after sync
+///
+/// The state is the base of the next three-way comparison, so it must describe what
+/// both sides really hold now: for every path that exists as a file on both sides
+/// (copied by this run, or found equal) both rows are stored from the files' current
+/// metadata (a copy's destination has a new mtime); a path that is no longer present
+/// on both sides (deleted, or renamed to conflict names) is forgotten. Paths whose
+/// action failed keep their prior state and are retried by the next run.
 fn update_state(
     state_db: &mut BisyncStateDb,
-    resolved: &ResolvedChanges,
+    source_root: &Path,
+    dest_root: &Path,
+    paths: &HashSet<PathBuf>,
+    failed: &HashSet<PathBuf>,
 ) -> Result<()> {
     let now = SystemTime::now();
 
-    for action in &resolved.actions {
-        match action {
-            SyncAction::CopyToSource(entry) => {
-                // File now exists on both sides with same content
-                let state = SyncState {
-                    path: entry.relative_path.clone(),
-                    side: Side::Source,
-                    mtime: entry.modified,
-                    size: entry.size,
-                    checksum: None,
-                    last_sync: now,
-                };
-                state_db.store(&state)?;
-            }
-            SyncAction::CopyToDest(entry) => {
-                let state = SyncState {
-                    path: entry.relative_path.clone(),
-                    side: Side::Dest,
-                    mtime: entry.modified,
-                    size: entry.size,
-                    checksum: None,
-                    last_sync: now,
-                };
-                state_db.store(&state)?;
-            }
-            SyncAction::DeleteFromSource(path) => {
-                state_db.delete(path)?;
-            }
-            SyncAction::DeleteFromDest(path) => {
-                state_db.delete(path)?;
-            }
-            SyncAction::RenameConflict { source, dest, .. } => {
-                // Both files kept with new names - update state
-                let source_state = SyncState {
-                    path: source.relative_path.clone(),
-                    side: Side::Source,
-                    mtime: source.modified,
-                    size: source.size,
-                    checksum: None,
-                    last_sync: now,
-                };
-                state_db.store(&source_state)?;
+    for path in paths {
+        if failed.contains(path) {
+            continue;
+        }
 
-                let dest_state = SyncState {
-                    path: dest.relative_path.clone(),
-                    side: Side::Dest,
-                    mtime: dest.modified,
-                    size: dest.size,
+        match (
+            file_state(&source_root.join(path)),
+            file_state(&dest_root.join(path)),
+        ) {
+            (Some((source_mtime, source_size)), Some((dest_mtime, dest_size))) => {
+                state_db.store(&SyncState {
+                    path: path.clone(),
+                    side: Side::Source,
+                    mtime: source_mtime,
+                    size: source_size,
                     checksum: None,
                     last_sync: now,
-                };
-                state_db.store(&dest_state)?;
+                })?;
+                state_db.store(&SyncState {
+                    path: path.clone(),
+                    side: Side::Dest,
+                    mtime: dest_mtime,
+                    size: dest_size,
+                    checksum: None,
+                    last_sync: now,
+                })?;
             }
+            _ => state_db.delete(path)?,
         }
     }
 
     Ok(())
+}
+
+/// Current (mtime, size) of a path if it is a file
+fn file_state(path: &Path) -> Option<(SystemTime, u64)> {
+    let metadata = std::fs::symlink_metadata(path).ok()?;
+    if metadata.is_dir() {
+        return None;
+    }
+    Some((metadata.modified().ok()?, metadata.len()))
 }
 
 #[cfg(test)]
